@@ -128,7 +128,8 @@ def judge(lines, d, nproc, tag="impl"):
     with concurrent.futures.ThreadPoolExecutor(max_workers=nproc) as ex:
         rs = list(ex.map(one, range(nproc)))
     tot = {"cases": 0, "accepted": 0, "signed_ok": 0, "refused": 0, "must_refuse": 0, "impl_stricter": 0, "panics": 0,
-           "changed_on_refusal": 0, "nviolations": 0, "ndivergent": 0}
+           "changed_on_refusal": 0, "nviolations": 0, "ndivergent": 0, "fallback_signed": 0,
+           "fallback_refused_dest": 0, "both_attempts_failed": 0}
     sole = {r: 0 for r in RULES}
     viols, divs = [], []
     states = trans = 0
@@ -210,6 +211,10 @@ def run(pid, tier):
     missing = [r for r in RULES if j["sole"][r] == 0]
     if missing:
         raise vlib.ToolError("self-test (vacuity guard): no real refusal has these rules as its sole reason: %s" % missing)
+    if j["fallback_signed"] == 0 or j["fallback_refused_dest"] == 0:
+        raise vlib.ToolError("self-test (vacuity guard): phase-1 fallback decoding not exercised (signed on the fallback "
+                             "assignment: %d, refused because of the fallback assignment's destination: %d)" % (
+                                 j["fallback_signed"], j["fallback_refused_dest"]))
     if j["signed_ok"] == 0:
         raise vlib.ToolError("self-test (vacuity guard): the real code signed no acceptable close")
 
@@ -251,6 +256,9 @@ def run(pid, tier):
         "accepted": j["accepted"], "signed_ok": j["signed_ok"], "refused": j["refused"],
         "reference_must_refuse": j["must_refuse"], "impl_stricter": j["impl_stricter"], "panics_recorded": j["panics"],
         "changed_on_refusal": j["changed_on_refusal"], "sole_reason_refusals": j["sole"],
+        "phase1_signed_on_fallback_assignment": j["fallback_signed"],
+        "phase1_refused_by_fallback_destination": j["fallback_refused_dest"],
+        "phase1_both_attempts_failed": j["both_attempts_failed"],
         "spec_divergences": j["ndivergent"], "violating_cases": j["nviolations"],
         "tlc_states": j["tlc_states"], "wall_s": round(j["wall_s"] + g["wall_s"], 1)}
     if j["ndivergent"]:
